@@ -287,8 +287,51 @@ func isPtrTo(t types.Type, named *types.Named) bool {
 // entryLockset is the lockset a "caller holds the lock" function starts with.
 func entryLockset(c *eng.Ctx, g guardSpec, named *types.Named, fn *ssa.Function) eng.Lockset {
 	entry := eng.Lockset{}
+	if par := fn.Parent(); par != nil && strings.Contains(fn.Synthetic, "range-over-func") {
+		// the body of a range-over-func loop runs on the caller's goroutine inside the call of
+		// the iterator made where the loop stands: it starts with the locks held there
+		// (captured variables keep their names, so the access paths agree)
+		pls := c.P.Locksets(par, entryLockset(c, g, named, par))
+		for _, b := range par.Blocks {
+			for _, in := range b.Instrs {
+				if mc, isMC := in.(*ssa.MakeClosure); isMC && mc.Fn == ssa.Value(fn) {
+					for k, v := range pls[in] {
+						entry[k] = v
+					}
+				}
+			}
+		}
+		return entry
+	}
 	mode, ok := g.callerHolds[c.P.FnName(fn)]
 	if !ok {
+		// a local closure that is only ever called (never stored away, passed on, deferred or
+		// started as a goroutine) starts with the locks common to all its call sites
+		if fn.Parent() != nil && !entryInProgress[fn] {
+			if sites, local := localClosureCallSites(fn); local {
+				entryInProgress[fn] = true
+				first := true
+				for _, s := range sites {
+					f := s.Parent()
+					ls := c.P.Locksets(f, entryLockset(c, g, named, f))[s.(ssa.Instruction)]
+					if first {
+						for k, v := range ls {
+							entry[k] = v
+						}
+						first = false
+						continue
+					}
+					for k, v := range entry {
+						if w, held := ls[k]; !held {
+							delete(entry, k)
+						} else if w < v {
+							entry[k] = w
+						}
+					}
+				}
+				delete(entryInProgress, fn)
+			}
+		}
 		return entry
 	}
 	recv := ""
